@@ -2,6 +2,8 @@
 
 package chacha20poly1305
 
+import "golang.org/x/crypto/internal/alias"
+
 // Hooks for /verif property C53 (buffer overlap): the portable Seal/Open paths, reachable in every build.
 
 // VerifC53SealGeneric calls sealGeneric (the portable path) directly.
@@ -17,3 +19,9 @@ func VerifC53OpenGeneric(key, dst, nonce, ciphertext, additionalData []byte) ([]
 	copy(c.key[:], key)
 	return c.openGeneric(dst, nonce, ciphertext, additionalData)
 }
+
+// VerifC53AnyOverlap / VerifC53InexactOverlap re-export internal/alias (an internal package cannot be
+// imported by the harness module) so that the overlap predicates can be driven directly.
+func VerifC53AnyOverlap(x, y []byte) bool { return alias.AnyOverlap(x, y) }
+
+func VerifC53InexactOverlap(x, y []byte) bool { return alias.InexactOverlap(x, y) }
